@@ -226,6 +226,19 @@ def measure_blocks(draw, tier, small=False):
         shift = 0 if destructive else k
         fresh = {p if p < off else p + shift for p in fresh
                  if not off <= p < off + k}
+    # sometimes: two adjacent qubits post-selected at once, then a bit
+    # prepared right after the live bits (the post-selected registers, which
+    # are dead but still there, have to make room)
+    if draw(st.integers(0, 3)) == 0:
+        pairs = [i for i in range(len(scan) - 1)
+                 if scan[i][0] == scan[i + 1][0] == "qubit"]
+        if pairs and len(scan) < cap:
+            off = draw(st.sampled_from(pairs))
+            add({"k": "g", "g": "Bra", "a": [draw(st.integers(0, 1)),
+                                             draw(st.integers(0, 1))]}, off)
+            last = max([i + 1 for i, w in enumerate(scan) if w[0] == "bit"]
+                       or [0])
+            add({"k": "g", "g": "Bits", "a": [0]}, last)
     for _ in range(draw(st.integers(0, 4))):
         opts = []
         bits_adj = [i for i in range(len(scan) - 1)
@@ -474,9 +487,21 @@ def check_roundtrip(case):
     ref = qsem.distribution(init_and_discard_spec(spec))
     try:
         tk = d.to_tk()
+        recorded = (repr(tk), dict(tk.post_selection), tk.scalar,
+                    repr(tk.post_processing))
         back = Circuit.from_tk(tk)
     except NotImplementedError:
         return dict(nt=False, labels=["NotImplementedError"])
+    # importing reads the exported circuit, it does not use it up: what was
+    # recorded is still there and a second import gives the same circuit
+    require(recorded == (repr(tk), dict(tk.post_selection), tk.scalar,
+                         repr(tk.post_processing)),
+            "C13:import-changes-the-exported-circuit",
+            lambda: "{} became {}".format(recorded, (
+                repr(tk), dict(tk.post_selection), tk.scalar)))
+    again = Circuit.from_tk(tk)
+    require(again == back, "C13:second-import-differs",
+            lambda: "{} then {}".format(back, again))
     specs.well_typed(back, "from_tk(to_tk(c))")
     same(back.eval(mixed=True).array, ref, "round-trip",
          "{} -> {!r} -> {}".format(common.show(d), tk, common.show(back)))
